@@ -13,11 +13,11 @@ RULE = ('each case = (operation, timeout grid point, stall kind, await point): a
         'operation (shell, exec_out, streaming_shell, root, reboot, list, stat, pull, push); the device then stalls after the k-th packet (k sampled over all '
         'await points: CNXN reply, OPEN\'s OKAY, each data WRTE, each OKAY to a WRITE, each sync record, the final CLSE) with kind in {silence, EOF (empty '
         'reads), trickle (1 byte per 0.9*T), foreign-stream traffic only, unexpected commands only, endless own-stream WRTEs against timeout_s}, under '
-        '(transport_timeout_s, read_timeout_s, timeout_s) drawn from {None, negative, 0, small, large}^3 where the API accepts them, on the virtual clock. '
+        '(transport_timeout_s, read_timeout_s, timeout_s) drawn from {None, negative, 0, small, large}^3 where the API accepts them, on the virtual clock; 8 % of the cases stall connect() while it waits for the CNXN after offering its public key (auth_timeout_s in {0, 0.5, 2, 5}). '
         'non-trivial / distinct = distinct (operation, await point index, stall kind, grid point) tuples in which the stall actually began inside a call')
 ASSUMPTIONS = ['bound: elapsed virtual time since the stall began <= 6*(R+ + T+) + timeout_s+ + slack, with R, T the effective values (DESIGN C11)',
                'auth_timeout_s=None is excluded (documented "wait forever")', 'every transport call costs a small positive virtual time; empty reads at EOF cost idle_cost']
-EXPECT_PROBES = {'all': ['stall_began', 'filler_foreign', 'filler_unexpected', 'filler_endless', 'c11_trickle', 'c11_eof', 'c11_in_connect', 'c11_timeout_raised']}
+EXPECT_PROBES = {'all': ['stall_began', 'filler_foreign', 'filler_unexpected', 'filler_endless', 'c11_trickle', 'c11_eof', 'c11_in_connect', 'c11_timeout_raised', 'c11_auth_wait']}
 OWN = ('returned-wrong-data', 'wrong-exception', 'bound-exceeded', 'hang', 'no-termination', 'timeout-order', 'fabricated-data')
 KINDS = ['shell', 'exec_out', 'streaming_shell', 'root', 'reboot', 'list', 'stat', 'pull', 'push']
 STALLS = ['silence', 'eof', 'trickle', 'foreign', 'unexpected', 'endless']
@@ -35,8 +35,28 @@ def eff(op, default_tt):
     return T, R, to
 
 
+def gen_auth_wait(seed, g):
+    """connect() whose keys are all rejected: the stall hits the wait for the CNXN after the public key was offered."""
+    d = S.gen_device(g)
+    d['latency'] = {'mode': 'zero'}
+    d.pop('stray', None)
+    nk = g.int(1, 3)
+    keys = [[i, g.pick(['pythonrsa', 'cryptography'])] for i in range(nk)]
+    d['auth'] = [{'accept_key': None, 'pubkey': 'silent'}]
+    at = g.pick([0, 0.0, 0.5, 2.0, 5.0])
+    rt = g.pick([0.5, 2.0])
+    conn = {'op': 'connect', 'keys': keys, 'at': at, 'rt': rt, 'tt': g.pick([0.2, 1.0])}
+    kind = g.pick(['silence', 'eof', 'foreign', 'unexpected', 'trickle'])
+    unit = max(rt, at, 0.0)
+    cfg = {'frag': g.pick(['whole', 'mixed']), 'call_cost': 1e-3, 'idle_cost': max(unit / 40.0, 2e-3), 'step_cap': 60000}
+    scn = {'api': g.pick(['sync', 'async']), 'transport': 'mem', 'device': d, 'config': cfg, 'actors': [[conn]], 'object': {'banner': 'simhost', 'default_tt': None}}
+    return {'seed': seed, 'scn': scn, 'stall': {'kind': kind, 'pick': 0, 'cmdword': g.pick([0x4e45504f, 0x434e5953, 0x48545541])}, 'auth_wait': True}
+
+
 def generate(seed, tier):
     g = Gen(seed)
+    if g.chance(0.08):
+        return gen_auth_wait(seed, g)
     d = S.gen_device(g)
     d['latency'] = {'mode': 'zero'}
     d.pop('stray', None)
@@ -72,7 +92,52 @@ def generate(seed, tier):
     return {'seed': seed, 'scn': scn, 'stall': stall}
 
 
+def evaluate_auth_wait(case, tapes):
+    out = blank()
+    scn = case['scn']
+    st = case['stall']
+    op = scn['actors'][0][0]
+    nk = len(op['keys'])
+    s2 = copy.deepcopy(scn)
+    at = op['at']
+    interval = {'trickle': max(0.9 * max(at, 0.0), 0.05), 'foreign': 0.05, 'unexpected': 0.05}.get(st['kind'], 0.5)
+    # the device has sent nk + 1 AUTH challenges when the host offers its public key; the stall begins there
+    s2['device']['stall'] = {'after_pkts': nk + 1, 'kind': st['kind'], 'interval': interval, 'cmdword': st['cmdword']}
+    c2 = dict(case)
+    c2['scn_stall'] = s2
+    run, tape = run_scn(c2, 'scn_stall', 0, tapes)
+    absorb(out, run, tape)
+    probs = []
+    pr = out['probes']
+    pr['c11_auth_wait'] = 1
+    rec = run.results[0][0] if run.results[0] else None
+    began = getattr(run.device, 'stall_began_at', None)
+    if run.abort:
+        probs.append(O.P('hang' if run.abort == 'hang' else 'no-termination', 'connect() waiting for the CNXN after offering the public key (auth_timeout_s=%r, read_timeout_s=%r) under stall %s: run aborted: %s %s' % (at, op['rt'], st['kind'], run.abort, getattr(run, 'abort_msg', ''))))
+    elif rec is not None:
+        if rec['ok']:
+            probs.append(O.P('returned-wrong-data', 'connect() returned %r although the device never answered CNXN' % (rec['value'],)))
+        elif not (set(O.TIMEOUT_EXCS) & set(exc_chain(rec)[:1])):
+            probs.append(O.P('wrong-exception', 'connect() under stall %s after the public key raised %s (%s)' % (st['kind'], rec['exc'], rec.get('msg'))))
+        else:
+            pr['c11_timeout_raised'] = 1
+        R = max(op['rt'], at)          # the read timeout follows the auth timeout for this wait
+        T = max(at, 0.0)
+        bound = 6.0 * (max(R, 0.0) + T) + 2.0 * interval + 400 * scn['config']['idle_cost'] + 0.5
+        if began is not None and rec['t1'] - began > bound:
+            probs.append(O.P('bound-exceeded', 'connect() (auth_timeout_s=%r, read_timeout_s=%r) under stall %s took %.3f virtual s after the public key was offered; bound %.3f' % (at, op['rt'], st['kind'], rec['t1'] - began, bound)))
+    out['violations'] = [p for p in probs if p[0] in OWN]
+    out['nontrivial'] = began is not None
+    from ..tape import h64
+    out['digest'] = h64('authwait', nk, st['kind'], at, op['rt'], op['tt'], scn['api'])
+    out['sample'] = {'family': 'auth-wait', 'api': scn['api'], 'keys': nk, 'auth_timeout_s': at, 'read_timeout_s': op['rt'], 'stall': s2['device']['stall'],
+                     'result': None if rec is None else ('ok' if rec['ok'] else rec['exc']), 'elapsed_after_pubkey': None if (rec is None or began is None) else round(rec['t1'] - began, 4)}
+    return out
+
+
 def evaluate(case, tapes=None):
+    if case.get('auth_wait'):
+        return evaluate_auth_wait(case, tapes)
     out = blank()
     scn = case['scn']
     st = case['stall']
